@@ -79,6 +79,7 @@ class XmlMonitor(taps.Monitor):
         self.docs.append(result)
         self.ctx.count('xml_documents_parsed')
         self.ctx.ev()
+        self.ctx.count('j:xml:document-not-well-formed')
         try:
             r = ET.fromstring(result.encode('utf-8'))
         except ET.ParseError as e:
@@ -90,6 +91,7 @@ class XmlMonitor(taps.Monitor):
 
 def setup(ctx):
     global PE, DIO, MON
+    rt_io.count_judgements(ctx)
     import pyerrors as pe
     import pyerrors.input.dobs as dio
     PE, DIO = pe, dio
@@ -104,7 +106,7 @@ def teardown(ctx):
 
 
 def plan(tier):
-    m = 1 if tier == 'quick' else 96
+    m = 1 if tier == 'quick' else 36
     return [('dobs', 700 * m), ('dobs_int', 350 * m), ('pobs', 300 * m), ('pobs_int', 120 * m), ('pobs_lists', 60 * m), ('history', 120 * m), ('alias', 80 * m)]
 
 
@@ -300,6 +302,10 @@ def judge_dobs_obs(ctx, g, e, nm, where, detail):
     clean = True
     for n in sorted(e['chains']):
         marker, zero = lost[n]
+        if marker:
+            ctx.count('j:' + T_MARKER)          # a chain with a sample the 0 marker cannot represent was written
+        if zero:
+            ctx.count('j:' + T_ZERO)            # a chain with a measured sample that is exactly 0 was written
         if not marker and not zero:
             continue
         eidl = [int(c) for c in e['chains'][n][0]]
@@ -367,6 +373,7 @@ def run_dobs(ctx, rng, kind, idx, tmp):
     if transport.startswith('string'):
         s = DIO.create_dobs_string(obsl, 'obsname')
         if transport == 'string-str':
+            ctx.count('j:' + T_STR)
             # the documented argument type is str
             try:
                 r = DIO.import_dobs_string(s, **kw)
@@ -391,6 +398,8 @@ def run_dobs(ctx, rng, kind, idx, tmp):
         data_b = read_file_bytes(path, gz)
         ctx.require(len(MON['dobs'].docs) == 1 and data_b == MON['dobs'].docs[-1].encode('utf-8'), 'dobs:file-content-differs-from-emitted-string',
                     {'ndocs': len(MON['dobs'].docs)})
+        if not gz:
+            ctx.count('j:' + T_GZ_DOBS)
         try:
             r = DIO.read_dobs(given if (rng.random() < 0.5 or given.endswith('.gz')) else stem, gz=gz, **kw)
         except ValueError as e:
@@ -431,6 +440,8 @@ def judge_list(ctx, rng, r, obsl, mode, fmt, opts, detail, before=None):
         ctx.count('obs_compared')
         g, e = snap(ro), snap(oo)
         where = '%s[%d]' % (fmt, i)
+        if fmt == 'dobs' and mode is False:
+            ctx.count('j:' + T_SEP_FALSE)
         if fmt == 'dobs' and mode is False and sorted(g['chains']) == sorted('|' + n.replace('|', '') for n in e['chains']) and e['chains']:
             # documented: False inserts nothing
             ctx.ev()
@@ -478,6 +489,7 @@ def run_pobs(ctx, rng, kind, idx, tmp):
         DIO.write_pobs(obsl, given, 'obsname', gz=gz)
     except Exception:
         if different:
+            ctx.count('j:' + T_POBS_LISTS)
             ctx.count('pobs_different_lists_refused')       # refusing what the format cannot hold is admissible
             ctx.ev()
             return
@@ -494,6 +506,10 @@ def run_pobs(ctx, rng, kind, idx, tmp):
     kw = {'full_output': full}
     if mode is not None or rng.random() < 0.3:
         kw['separator_insertion'] = mode
+    if not gz:
+        ctx.count('j:' + T_GZ_POBS)
+    if different:
+        ctx.count('j:' + T_POBS_LISTS)
     try:
         r = DIO.read_pobs(given if (rng.random() < 0.5 or given.endswith('.gz')) else stem, gz=gz, **kw)
     except ValueError as e:
